@@ -15,7 +15,7 @@ CHECKS = {
    text="All 779 filters of <=4 levels over {a,b,empty,+,#} x all names of <=4 levels over {a,b,empty} x 3 QoS are decided against the specification matcher on the real topic store (Subscribers and Retained), and thousands of random subscribe/unsubscribe/retain histories are compared with a map model after every operation. Exhaustive for that scope only; histories are sampled. Concurrent histories (one subscriber per goroutine, untouched bystanders, union of the models at quiescence) are checked as well. Result slices are reused across lookups as the service does; every history ends by draining the store.",
    note="trusted: spec.Match (20 lines from section 4.7); known finding F-C06-1 (empty levels) is recognised by a classifier predicate, anything else is reported", ref="3/C06"),
  "C13": dict(cat="exploration", tech="list-model oracle over exhaustively enumerated operation sequences and random histories; porcupine linearizability check of concurrent histories",
-   text="Every register/ack/collect sequence up to depth 6 (ids {1,2}) and 5 (ids {1,2,3}) is executed on a fresh real queue and compared with a FIFO list model incl. byte-identity of the copies; long random histories exercise growth and wrap; concurrent histories are checked with porcupine. Bounded exhaustive + sampling. Growth of a full, wrapped queue while an acknowledgement is in progress is enumerated separately (ack message with a dwelling Encode). Lists handed back by Acked are kept and must stay unchanged by later calls.",
+   text="Every register/ack/collect sequence up to depth 6 (ids {1,2}) and 5 (ids {1,2,3}) is executed on a fresh real queue and compared with a FIFO list model incl. byte-identity of the copies; long random histories exercise growth and wrap; concurrent histories are checked with porcupine. Bounded exhaustive + sampling. Growth of a full, wrapped queue while an acknowledgement is in progress is enumerated separately (ack message with a dwelling Encode). Lists handed back by Acked are kept and must stay unchanged by later calls. Requests sized at the boundaries of the remaining-length field must be handed back byte-identical.",
    note="trusted: the 60-line list model; porcupine v1.3.0", ref="3/C13"),
  "C14": dict(cat="exploration", tech="stream-position oracle on the real ring (every obtained byte verified at its committed offset), enumerated op x offset x chunk matrix, concurrent SPSC stress incl. Go race detector",
    text="All producer-op x consumer-op x wrap-position x chunk-size cells are executed single-threaded, then hundreds of MiB are moved between a producer and a consumer goroutine with seeded op mixes at three GOMAXPROCS values, with peeked slices re-verified before commit; the same workload runs under -race. Held on the executions run. Close cells: a producer parked for space is ended by Close and the consumer drains or holds a peeked slice. Rings are also asked for with sizes that are not powers of two.",
@@ -24,10 +24,10 @@ CHECKS = {
    text="583 applicable cells of the blocking matrix are executed; yield hooks place Close / commits exactly in the check-to-Wait window and before the Lock; afterwards every exported method is probed. A parked call with no enabled waker (two identical all-parked snapshots) is the witness.",
    note="liveness restated as absence of stuck states on the enumerated matrix; deadlines are only watchdogs", ref="3/C15"),
  "C01": dict(cat="exploration", tech="reference-model monitor over wire histories of a real broker (net.Pipe) at synctest quiescence points; payloads carry unique id + CRC",
-   text="Thousands of generated sequential histories are executed step by step against the real broker; after every publish, at true quiescence, each subscriber's received copies are compared with what a small subscription model and the MQTT 4.7 matcher allow (1..k copies, QoS multiset, nobody else). Sampling of histories, not exhaustive. Multi-filter UNSUBSCRIBEs also list filters the client does not hold.",
+   text="Thousands of generated sequential histories are executed step by step against the real broker; after every publish, at true quiescence, each subscriber's received copies are compared with what a small subscription model and the MQTT 4.7 matcher allow (1..k copies, QoS multiset, nobody else). Sampling of histories, not exhaustive. Multi-filter UNSUBSCRIBEs also list filters the client does not hold. Half of the clients keep their session across reconnects.",
    note="trusted: synctest quiescence, spec.Match, the subscription model; known finding F-C01-1 (empty levels) recognised by classifier", ref="3/C01"),
  "C07": dict(cat="exploration", tech="wire-level monitor: SUBACK/UNSUBACK obligations and probe-publish effect check at synctest quiescence",
-   text="Generated SUBSCRIBE/UNSUBSCRIBE packets incl. invalid filters and out-of-range QoS are sent to the real broker; silence on an open connection, a wrong code, order or count is a violation, and probes after the ack verify that exactly the granted filters are effective. Also: 4..13 connections subscribing / unsubscribing at the same moment on one tree node, with PINGREQ/PINGRESP barriers (real time). A subject subscribed behind a short-lived neighbour must receive a whole numbered stream while the neighbour's connection is cut inside it.",
+   text="Generated SUBSCRIBE/UNSUBSCRIBE packets incl. invalid filters and out-of-range QoS are sent to the real broker; silence on an open connection, a wrong code, order or count is a violation, and probes after the ack verify that exactly the granted filters are effective. Also: 4..13 connections subscribing / unsubscribing at the same moment on one tree node, with PINGREQ/PINGRESP barriers (real time). A subject subscribed behind a short-lived neighbour must receive a whole numbered stream while the neighbour's connection is cut inside it. Requests with up to 300 filters.",
    note="trusted: reference encoder for malformed requests, synctest quiescence", ref="3/C07"),
  "C08": dict(cat="exploration", tech="last-writer-wins model monitor over wire histories at synctest quiescence; CRC payloads",
    text="Retained/plain/clearing publishes, filler traffic beyond two ring sizes and new subscriptions are interleaved; at every new subscription the exact multiset of retained deliveries (flag, QoS, payload identity) is compared with the model. Retained messages that fit must all reach a new subscription even when retained wills larger than the rings sit on sibling topics.",
